@@ -26,7 +26,8 @@ LEVEL_TEXT = ('Held on the generated allocation histories and stress runs: each 
 LEVEL_NOTE = ('Ids of objects removed by a gc pack may be reissued after reopen (they identify nothing any more). Concurrency is '
               'stress-sampled at bytecode granularity, not enumerated.')
 ASSUMPTIONS = ['uniqueness is per open session plus everything stored (incl. un-created objects, which still have revisions)']
-REQUIRED_COUNTERS = ('new_oid_calls_checked', 'explicit_foreign_ids_stored', 'reopens', 'hostile_proposals', 'concurrent_allocations_checked')
+REQUIRED_COUNTERS = ('new_oid_calls_checked', 'explicit_foreign_ids_stored', 'reopens', 'hostile_proposals', 'concurrent_allocations_checked',
+                     'scheduled_allocations_checked')
 
 
 def shards(tier, seed):
@@ -337,6 +338,68 @@ def run_threads(sh, s, d, case):
     return (digest('thr', kind, mode, nthreads, per, s), {'seed': s, 'kind': kind, 'threads': nthreads, 'mode': mode, 'ids': len(allids)})
 
 
+def run_sched(sh, s, d, case):
+    """concurrent allocators under the deterministic baton scheduler (statement-level yields in the storages)"""
+    import ZODB
+    import ZODB.MappingStorage
+    import ZODB.DemoStorage
+    import transaction
+    from zv import mvccload, objs
+    from zv.sched import Sched
+    from ZODB.Connection import TransactionMetaData
+    from ZODB.utils import z64
+    FSM = mvccload.setup(True)
+    rnd = random.Random(s)
+    ZODB.DemoStorage.random = random.Random(s + 1)
+    kind = rnd.choice(['file', 'mapping', 'demo', 'demo-file'])
+    st = {'file': lambda: FSM.FileStorage(os.path.join(d, 'S.fs')), 'mapping': ZODB.MappingStorage.MappingStorage,
+          'demo': ZODB.DemoStorage.DemoStorage,
+          'demo-file': lambda: ZODB.DemoStorage.DemoStorage(base=ZODB.MappingStorage.MappingStorage(), changes=FSM.FileStorage(os.path.join(d, 'SC.fs')))}[kind]()
+    db = ZODB.DB(st)
+    sc = Sched(s, rnd.choice(['sticky', 'pct', 'random']), stick=rnd.choice([0.5, 0.9]), pct_depth=rnd.choice([1, 2, 3]))
+    got = {}
+
+    def raw(name):
+        def f():
+            got[name] = [st.new_oid() for _ in range(6)]
+        return f
+
+    def viadb(name):
+        def f():
+            tm = transaction.TransactionManager()
+            c = db.open(tm)
+            ids = []
+            for j in range(2):
+                tm.begin()
+                for _ in range(2):
+                    o = objs.Cell(name)
+                    c.add(o)
+                    ids.append(o._p_oid)
+                tm.savepoint()
+                o = objs.Cell('sp')
+                c.add(o)
+                ids.append(o._p_oid)
+                (tm.commit if j else tm.abort)()
+            c.close()
+            got[name] = ids
+        return f
+    sc.spawn('a', raw('a'))
+    sc.spawn('b', raw('b') if rnd.random() < 0.5 else viadb('b'))
+    sc.spawn('c', viadb('c'))
+    ok = sc.run(60)
+    for f in sc.failures() or ([] if ok else [('watchdog',)]):
+        sh.violation('c20:%s:schedule:%s' % (kind, f[0] if f[0] != 'thread-exception' else 'thread-raises-%s' % f[2]), {'detail': f[1:]}, case)
+        return None
+    allids = [o for g in got.values() for o in g]
+    sh.count('scheduled_allocations_checked', len(allids))
+    sh.count('allocator_schedules')
+    sh.count('context_switches', sc.switches)
+    if len(set(allids)) != len(allids):
+        sh.violation('c20:%s:concurrent-allocators-got-the-same-id' % kind, {'scheduled': True, 'dups': sorted({o for o in allids if allids.count(o) > 1})[:3]}, case)
+    db.close()
+    return (digest('sched', kind, sc.digest()), {'seed': s, 'kind': kind, 'scheduled': True, 'switches': sc.switches})
+
+
 def run_shard(params):
     logging.disable(logging.CRITICAL)
     sh = Shard(params)
@@ -345,9 +408,10 @@ def run_shard(params):
             break
         s = case_seed(params, i)
         thr = (i % 8 == 7)
-        case = {'seed': s, 'threads': thr}
+        schd = (i % 8 == 3)
+        case = {'seed': s, 'threads': thr, 'sched': schd}
         d = sh.fresh_dir('c20')
-        r = guarded(sh, 'c20', case, lambda: (run_threads if thr else run_seq)(sh, s, d, case))
+        r = guarded(sh, 'c20', case, lambda: (run_sched if schd else run_threads if thr else run_seq)(sh, s, d, case))
         if r:
             sh.case(r[0], r[1])
         else:
@@ -361,5 +425,5 @@ def replay(case, scratch):
     if case.get('crafted') == 'demo-uncreated':
         guarded(sh, 'c20', case, lambda: crafted_uncreated(sh, sh.fresh_dir('c20'), case))
         return sh.violations
-    guarded(sh, 'c20', case, lambda: (run_threads if case.get('threads') else run_seq)(sh, case['seed'], sh.fresh_dir('c20'), case))
+    guarded(sh, 'c20', case, lambda: (run_sched if case.get('sched') else run_threads if case.get('threads') else run_seq)(sh, case['seed'], sh.fresh_dir('c20'), case))
     return sh.violations
